@@ -235,8 +235,8 @@ func runRecur(c recurCase) (res jobResult) {
 }
 
 var recurFacet = harness.Register(&harness.Facet[recurCase]{
-	Name: "recursion-vs-limit",
-	Rule: "rapid: a cycle of 1–4 global functions; f_i reaches f_{i+1} through a drawn mechanism (60: direct, call/apply/bind and their compositions, object-literal / defineProperty / inherited / with getters, setters, valueOf and toString coercion in unary, binary, relational, Date, Math, index, property-key, join, Error, RegExp, parseInt positions, forEach/map/filter/some/every/reduce/reduceRight/sort callbacks, eval direct and indirect, Function(), new, new on a bound function, JSON toJSON/replacer/reviver, String.replace replacers, try/finally, catch-rethrow, nested closures, arguments.callee, a host function calling back through Value.Call); every body recurses before it returns. Stack depth limit L ∈ {2…64} ∪ random ≤ 5000; entry through Run, Eval, Compile+Run, Otto.Call, Value.Call or Object.Call; either a script-level try/catch around the first call (must catch an instance of RangeError) or none (the API call must return a RangeError). Executed in a worker subprocess: oracle = the worker survives, no Go panic crosses the API, the error is the RangeError, and no more than L script activations were entered. Non-trivial = at least one activation was entered before the limit fired (depth ≥ 1; recursion is unbounded so the limit is always reached); distinct by (hops, L, top, entry)",
+	Name:     "recursion-vs-limit",
+	Rule:     "rapid: a cycle of 1–4 global functions; f_i reaches f_{i+1} through a drawn mechanism (60: direct, call/apply/bind and their compositions, object-literal / defineProperty / inherited / with getters, setters, valueOf and toString coercion in unary, binary, relational, Date, Math, index, property-key, join, Error, RegExp, parseInt positions, forEach/map/filter/some/every/reduce/reduceRight/sort callbacks, eval direct and indirect, Function(), new, new on a bound function, JSON toJSON/replacer/reviver, String.replace replacers, try/finally, catch-rethrow, nested closures, arguments.callee, a host function calling back through Value.Call); every body recurses before it returns. Stack depth limit L ∈ {2…64} ∪ random ≤ 5000; entry through Run, Eval, Compile+Run, Otto.Call, Value.Call or Object.Call; either a script-level try/catch around the first call (must catch an instance of RangeError) or none (the API call must return a RangeError). Executed in a worker subprocess: oracle = the worker survives, no Go panic crosses the API, the error is the RangeError, and no more than L script activations were entered. Non-trivial = at least one activation was entered before the limit fired (depth ≥ 1; recursion is unbounded so the limit is always reached); distinct by (hops, L, top, entry)",
 	Quick:    500,
 	Thorough: 6000,
 	Gen: func(t *rapid.T) recurCase {
